@@ -462,6 +462,16 @@ def pairing(an, rep):
                 slot = guards.norm(src[3][1])
             elif src[0] == "index":
                 slot = guards.norm(src[2])
+            else:
+                # inputs.first().copied() / inputs.get(i).copied() matched as Some(region)
+                t = src
+                while isinstance(t, tuple) and (t[0] in ("field", "variant") or
+                                                (t[0] == "call" and t[1].split("::")[-1] in ("copied", "cloned") and t[3])):
+                    t = strip_refs(t[3][0] if t[0] == "call" else t[1])
+                if isinstance(t, tuple) and t[0] == "call" and t[1] == "[T]::first":
+                    slot = guards.norm(("const", "usize", 0, "0", None, None))
+                elif isinstance(t, tuple) and t[0] == "call" and t[1] == "[T]::get" and len(t[3]) == 2:
+                    slot = guards.norm(t[3][1])
             restored = None
             for e in p.events:
                 if e[0] == "call" and "IndexMut" in e[2]:
